@@ -38,6 +38,8 @@ PLACEMENTS = {
     # an explicit TZID=UTC parameter is a TZID parameter like any other (the provider knows UTC)
     "P12": ("VTODO", ["DTSTART;TZID=UTC:20240601T080000"], {"UTC"}),
     "P13": ("VEVENT", ['DTEND;TZID="%s":20240601T130000' % W], {W}),
+    # an empty TZID parameter is a TZID parameter (no VTIMEZONE can have the id "", a VTIMEZONE without TZID does not)
+    "P14": ("VJOURNAL", ["DTSTART;TZID=:20240601T100000"], {""}),
 }
 PRESETS = ("tzA", "tzA2", "tzT", "tzC", "tzX", "tzNoId")
 
@@ -153,6 +155,8 @@ def build_api(placements, presets):
             c.add("dtstart", datetime(2024, 6, 1, 8), parameters={"TZID": "UTC"})
         elif p == "P13":
             c.add("dtend", datetime(2024, 6, 1, 13), parameters={"TZID": W})
+        elif p == "P14":
+            c.add("dtstart", datetime(2024, 6, 1, 10), parameters={"TZID": ""})
     return cal
 
 
@@ -213,7 +217,7 @@ def run_case(case):
         fails.append(fail("missing-set", case, sorted(missing), got_missing))
     before = [(id(c), c.to_ical()) for c in cal.walk("VTIMEZONE")]
     n_sub_before = len(cal.subcomponents)
-    known_missing = {i for i in missing if i not in (C, W)}
+    known_missing = {i for i in missing if i not in (C, W, "")}
     outcome = "ok"
     for k in range(3):
         r = attempt(lambda: cal.add_missing_timezones(*window_args(window)) if window else cal.add_missing_timezones())
@@ -231,7 +235,7 @@ def run_case(case):
         if len(cal.subcomponents) != n_sub_before + len(known_missing):
             fails.append(fail("subcomponent-count", case, n_sub_before + len(known_missing), (len(cal.subcomponents), f"after call {k + 1}")))
         still = attempt(cal.get_missing_tzids)
-        want_still = missing & {C, W}
+        want_still = missing & {C, W, ""}
         if still != ("ok", want_still):
             fails.append(fail("missing-after-add", case, sorted(want_still), still))
         u2 = attempt(cal.get_used_tzids)
@@ -263,7 +267,7 @@ def run(ctx):
     ctx.bounds = {"placements": len(PLACEMENTS), "max_placements": maxp, "vtimezone_presets": list(PRESETS)}
     ctx.assumptions += ["the used set is the set of TZID *parameters*; a list value built from several zones carries one TZID (C02)",
                         "for ids with duplicate pre-existing VTIMEZONEs 'exactly one' is read as 'none added'"]
-    pl = [p for p in PLACEMENTS if p != "P13"]
+    pl = [p for p in PLACEMENTS if p not in ("P13", "P14")]
 
     def subsets(items, k):
         for n in range(0, k + 1):
@@ -286,6 +290,11 @@ def run(ctx):
             for how in ("parse", "api"):
                 for placements in (("P13",), ("P1", "P13"), ("P13", "P4")):
                     for presets in ((), ("tzW",), ("tzW", "tzA"), ("tzA", "tzW", "tzC")):
+                        yield ("c", provider, how, placements, presets, WINDOW)
+        for provider in env.PROVIDERS:
+            for how in ("parse", "api"):
+                for placements in (("P14",), ("P1", "P14")):
+                    for presets in ((), ("tzNoId",), ("tzA", "tzNoId"), ("tzNoId", "tzA")):
                         yield ("c", provider, how, placements, presets, WINDOW)
         # the window bounds given as naive / aware datetimes instead of dates
         for provider in env.PROVIDERS:
